@@ -26,3 +26,179 @@ package task
 //@   sweep                                                          [C16]
 //@ func (*Executor).areTaskRequiredVarsAllowedValuesSet
 //@   sweep                                                          [C16]
+
+// ---- C01/C02/C03: dependencies ---------------------------------------------------------------------
+// depCallOK(d): a RunTask call made for dependency entry d has returned nil in this invocation.
+// depClo(t,j): the closure handed to the errgroup for t.Deps[j].
+//@ ghost fact depCallOK(d *ast.Dep)
+//@ ghost table depClo(t *ast.Task, j int) ref local
+
+//@ func (*Executor).runDeps$1
+//@   site RunTask#1 requires arg2.Task == d.Task && arg2.Vars == d.Vars && arg2.Silent == d.Silent && arg2.Indirect    [C01,C02]
+//@   site RunTask#1 ghost set depCallOK(d) if result == nil
+//@   ensures result == nil ==> depCallOK(d)                                                            [C01,C03]
+
+//@ func (*Executor).runDeps
+//@   modifies heap
+//@   preserves $RUNDATA
+//@   blocks
+//@   requires semLimited() ==> tok == 1
+//@   ensures  tok == old(tok)                                                                          [C07]
+//@   site (*Group).Go#1 requires clofn(arg1) == fn("(*Executor).runDeps$1")
+//@                            && captured(arg1, "(*Executor).runDeps$1", "d") == t.Deps[$i]              [C01]
+//@   site (*Group).Go#1 ghost depClo(t, $i) := arg1
+//@   loop 1 invariant forall j {depClo(t, j)} :: 0 <= j && j < $i ==> inGroup(g, depClo(t, j))
+//@                    && clofn(depClo(t, j)) == fn("(*Executor).runDeps$1")
+//@                    && captured(depClo(t, j), "(*Executor).runDeps$1", "d") == t.Deps[j]              [C01]
+//@   site (*Group).Wait#1 ensures result == nil ==>
+//@        forall j {t.Deps[j]} :: 0 <= j && j < len(t.Deps) ==> returnedNil(depClo(t, j))                [C01]
+//@   ensures result == nil ==> forall j {t.Deps[j]} :: 0 <= j && j < len(t.Deps) ==> depCallOK(t.Deps[j])   [C01,C03]
+
+// ---- C07: concurrency slots -----------------------------------------------------------------------------
+// tok: number of concurrency slots held by the current goroutine (thread-local ghost, 0 or 1).
+// semLimited(): whether the executor was set up with a semaphore (--concurrency N > 0); fixed after Setup.
+//@ ghost var tok int
+//@ ghost func semLimited() bool
+//@ typeinv *github.com/go-task/task/v3.Executor : (self.concurrencySemaphore != nil) == semLimited()
+
+// A slot is taken by sending on the semaphore channel and given back by receiving from it. The channel has
+// capacity N, so at most N goroutines hold a slot (assumed channel semantics).
+//@ fnspec slotGiveBack
+//@   pure
+//@   requires semLimited() ==> tok == 1
+//@   ensures  tok == old(tok) - (semLimited() ? 1 : 0)                                              [C07]
+//@ fnspec slotRetake
+//@   pure
+//@   blocks
+//@   requires semLimited() ==> tok == 0
+//@   ensures  tok == old(tok) + (semLimited() ? 1 : 0)                                              [C07]
+
+//@ func emptyFunc
+//@   implements slotGiveBack, slotRetake
+//@   requires !semLimited()
+//@ func (*Executor).acquireConcurrencyLimit
+//@   pure
+//@   blocks
+//@   requires semLimited() ==> tok == 0
+//@   site send#1 ghost tok := tok + 1
+//@   ensures  tok == old(tok) + (semLimited() ? 1 : 0)                                              [C07]
+//@   result fnspec slotGiveBack
+//@ func (*Executor).acquireConcurrencyLimit$1
+//@   implements slotGiveBack
+//@   requires semLimited()
+//@   site recv#1 ghost tok := tok - 1
+//@ func (*Executor).releaseConcurrencyLimit
+//@   pure
+//@   requires semLimited() ==> tok == 1
+//@   site recv#1 ghost tok := tok - 1
+//@   ensures  tok == old(tok) - (semLimited() ? 1 : 0)                                              [C07]
+//@   result fnspec slotRetake
+//@ func (*Executor).releaseConcurrencyLimit$1
+//@   implements slotRetake
+//@   requires semLimited()
+//@   site send#1 ghost tok := tok + 1
+
+// =====================================================================================================
+// The run family: Run, RunTask, its execution closure RunTask$1, runCommand, runDeferred, startExecution.
+// Facts are monotone ("has happened in this invocation"); they are keyed by the Call of an invocation of
+// RunTask (guards) or by the compiled task t, which is a fresh object per call (commands, deferred entries).
+// =====================================================================================================
+//@ ghost fact platformOK(call *Call)
+//@ ghost fact requiredOK(call *Call)
+//@ ghost fact enumOK(call *Call)
+//@ ghost fact countOK(call *Call)
+//@ ghost fact precondsOK(call *Call)
+//@ ghost fact promptOK(call *Call, k int)
+//@ ghost fact cmdSettled(t *ast.Task, i int)
+//@ ghost fact cmdOK(t *ast.Task, i int)
+//@ ghost fact cmdExitFail(t *ast.Task, i int)
+//@ ghost table deferRegistered(t *ast.Task, i int) bool local
+//@ ghost fact deferRan(t *ast.Task, i int)
+//@ ghost fact shellFailed(t *ast.Task, i int)
+//@ ghost fact shellExitFail(t *ast.Task, i int)
+//@ ghost fact nestedFailed(t *ast.Task, i int)
+//@ ghost fact execOK(h string)
+//@ ghost fact notAncestor(h string)
+
+// What calling the execution body of a task means (the closure handed to startExecution).
+//@ fnspec taskBody
+//@   modifies heap
+//@   preserves $RUNDATA
+//@   blocks
+//@   requires semLimited() ==> tok == 1
+//@   ensures  tok == old(tok)                                                                          [C07]
+
+//@ func (*Executor).RunTask
+//@   modifies heap
+//@   preserves $RUNDATA
+//@   blocks
+//@   requires semLimited() ==> tok == 0
+//@   ensures  tok == old(tok)                                                                          [C07]
+//@   site shouldRunOnCurrentPlatform#1 ghost set platformOK(call) if result
+//@   site (*Executor).areTaskRequiredVarsSet#1 ghost set requiredOK(call) if result == nil
+//@   site (*Executor).areTaskRequiredVarsAllowedValuesSet#1 ghost set enumOK(call) if result == nil
+//@   site AddInt32#1 ghost set countOK(call) if result < 1000
+//@   site (*Executor).startExecution#1 requires platformOK(call) && requiredOK(call) && enumOK(call)  [C13]
+//@   site (*Executor).startExecution#1 requires e.Watch || countOK(call)                              [C07]
+
+//@ func (*Executor).RunTask$1
+//@   implements taskBody
+//@   requires platformOK(call) && requiredOK(call) && enumOK(call)
+//@   site (*Executor).areTaskPreconditionsMet#1 ghost set precondsOK(call) if result.0 && result.1 == nil
+//@   site (*Logger).Prompt#1 ghost set promptOK(call, $i) if result == nil
+//@   loop 1 invariant forall k {promptOK(call, k)} :: 0 <= k && k < $i ==> t.Prompt[k] == "" || e.Dry || promptOK(call, k)   [C13]
+//@   loop 1 invariant tok == old(tok)                                                                  [C07]
+//@   loop 2 invariant tok == old(tok)                                                                  [C07]
+//@   site (*Executor).runCommand#1 requires
+//@        forall j {t.Deps[j]} :: 0 <= j && j < len(t.Deps) ==> depCallOK(t.Deps[j])                   [C01]
+//@   site (*Executor).runCommand#1 requires platformOK(call) && requiredOK(call) && enumOK(call)      [C13]
+//@   site (*Executor).runCommand#1 requires precondsOK(call)                                          [C13]
+//@   site (*Executor).runCommand#1 requires
+//@        forall k {promptOK(call, k)} :: 0 <= k && k < len(t.Prompt) ==> t.Prompt[k] == "" || e.Dry || promptOK(call, k) [C13]
+//@   site (*Executor).runCommand#1 requires forall j {cmdSettled(t, j)} :: 0 <= j && j < $i && !t.Cmds[j].Defer ==>
+//@        cmdSettled(t, j) && (cmdOK(t, j) || (t.IgnoreError && cmdExitFail(t, j)))                   [C02,C03]
+//@   site (*Executor).runCommand#1 ghost set cmdSettled(t, $i)
+//@   site (*Executor).runCommand#1 ghost set cmdOK(t, $i) if result == nil
+//@   site IsExitStatus#1 ghost set cmdExitFail(t, $i) if result.1
+//@   site (*Executor).runDeferred#1 ghost set deferRegistered(t, $i)
+//@   loop 2 invariant forall j {cmdSettled(t, j)} :: 0 <= j && j < $i && !t.Cmds[j].Defer ==>
+//@        cmdSettled(t, j) && (cmdOK(t, j) || (t.IgnoreError && cmdExitFail(t, j)))                   [C02,C03]
+//@   loop 2 invariant forall j {deferRegistered(t, j)} :: 0 <= j && j < $i && t.Cmds[j].Defer ==> deferRegistered(t, j)     [C14]
+//@   deferrule deferRegistered => deferRan
+//@   requires forall j {deferRegistered(t, j)} :: !deferRegistered(t, j)
+//@   ensures forall j {deferRan(t, j)} :: deferRegistered(t, j) ==> deferRan(t, j)                   [C14]
+
+//@ func (*Executor).runCommand
+//@   modifies heap
+//@   preserves $RUNDATA
+//@   blocks
+//@   requires semLimited() ==> tok == 1
+//@   ensures  tok == old(tok)                                                                          [C07]
+//@   site (*Executor).RunTask#1 requires arg2.Task == t.Cmds[i].Task && arg2.Vars == t.Cmds[i].Vars
+//@        && arg2.Silent == t.Cmds[i].Silent && arg2.Indirect                                          [C02]
+//@   site (*Executor).RunTask#1 ghost set nestedFailed(t, i) if result != nil
+//@   site execext.RunCommand#1 requires !e.Dry                                                         [C12]
+//@   site execext.RunCommand#1 requires semLimited() ==> tok == 1                                      [C07]
+//@   site execext.RunCommand#1 requires arg1.Command == t.Cmds[i].Cmd && arg1.Dir == t.Dir             [C02]
+//@   site execext.RunCommand#1 ghost set shellFailed(t, i) if result != nil
+//@   site IsExitStatus#1 ghost set shellExitFail(t, i) if result.1
+//@   ensures result == nil && shellFailed(t, i) ==> shellExitFail(t, i) && t.Cmds[i].IgnoreError     [C03]
+//@   ensures nestedFailed(t, i) ==> result != nil                                                      [C03]
+
+//@ func (*Executor).runDeferred
+//@   trusted
+//@   modifies heap
+//@   preserves $RUNDATA
+//@   blocks
+
+//@ func (*Executor).areTaskPreconditionsMet
+//@   modifies heap
+//@   preserves $RUNDATA
+//@   blocks
+//@ func (*Executor).statusOnError
+//@   modifies heap
+//@   preserves $RUNDATA
+//@ func (*Executor).mkdir
+//@   modifies heap
+//@   preserves $RUNDATA
+//@   blocks
